@@ -728,6 +728,116 @@ fn c08_sequence(c: &mut Ctx, r: &mut Rng, fam: Fam, seq: &[RP]) {
     }
 }
 
+/// Two connections served by one thread: their async decoders (and, in between, a blocking and a
+/// poll decode of unrelated bytes) are polled alternately, every transport stalling between its
+/// pieces. Each connection must still see exactly its own packet sequence — whatever a decoder keeps
+/// outside the future (thread-locals, statics) is shared between them.
+fn c08_interleaved(c: &mut Ctx, r: &mut Rng, fam: Fam, a: &[RP], b: &[RP]) {
+    use std::future::Future;
+    let enc = |seq: &[RP]| -> Vec<Vec<u8>> { seq.iter().map(|p| ref_bytes(fam, p)).collect() };
+    let (ea, eb) = (enc(a), enc(b));
+    let streams: [Vec<u8>; 2] = [ea.concat(), eb.concat()];
+    if streams[0].len() + streams[1].len() > 200_000 {
+        return;
+    }
+    c.eval();
+    c.count("interleaved.pairs");
+    let scheds: [Vec<Step>; 2] = [stalling_schedule(r, streams[0].len()), stalling_schedule(r, streams[1].len())];
+    let mut rd0 = ScriptedReader::new(&streams[0], &scheds[0]);
+    let mut rd1 = ScriptedReader::new(&streams[1], &scheds[1]);
+    rd0.keep_log = false;
+    rd1.keep_log = false;
+    let want: [&[Vec<u8>]; 2] = [&ea, &eb];
+    let mut got: [Vec<Result<Pkt, Er>>; 2] = [Vec::new(), Vec::new()];
+    let unrelated = ref_bytes(fam, &gen::gen_any(r, fam));
+    let res = guard(|| {
+        let mut ex = crate::io::Exec::new();
+        // one in-flight decode per connection; the readers are only touched through their futures
+        let rd0p: *mut ScriptedReader = &mut rd0;
+        let rd1p: *mut ScriptedReader = &mut rd1;
+        type Fut<'x> = std::pin::Pin<Box<dyn Future<Output = Result<Pkt, Er>> + 'x>>;
+        fn start<'x>(fam: Fam, rd: &'x mut ScriptedReader<'x>) -> Fut<'x> {
+            match fam {
+                Fam::V3 => Box::pin(async move { mqtt_proto::v3::Packet::decode_async(rd).await.map(Pkt::V3).map_err(Er::V3) }),
+                Fam::V5 => Box::pin(async move { mqtt_proto::v5::Packet::decode_async(rd).await.map(Pkt::V5).map_err(Er::V5) }),
+            }
+        }
+        let mut futs: [Option<Fut>; 2] = [None, None];
+        let mut polls = 0usize;
+        let budget = (streams[0].len() + streams[1].len()) * 4 + 64 * (ea.len() + eb.len()) + 256;
+        loop {
+            let mut progressed = false;
+            for k in 0..2 {
+                if got[k].len() >= want[k].len() || matches!(got[k].last(), Some(Err(_))) {
+                    continue;
+                }
+                if futs[k].is_none() {
+                    // SAFETY: the previous future borrowing this reader has been dropped (it completed)
+                    let rd: &mut ScriptedReader = unsafe { &mut *(if k == 0 { rd0p } else { rd1p }) };
+                    futs[k] = Some(start(fam, unsafe { std::mem::transmute::<&mut ScriptedReader, &mut ScriptedReader>(rd) }));
+                }
+                progressed = true;
+                polls += 1;
+                if let std::task::Poll::Ready(v) = ex.poll_pinned(futs[k].as_mut().unwrap().as_mut()) {
+                    futs[k] = None;
+                    got[k].push(v);
+                }
+                // unrelated decodes on the same thread while the connection is suspended
+                if polls % 3 == 0 {
+                    let _ = dec_block(fam, &unrelated);
+                }
+                if polls % 5 == 0 {
+                    let _ = dec_poll_bytes(fam, &unrelated);
+                }
+            }
+            if !progressed || polls > budget {
+                break;
+            }
+        }
+        polls
+    });
+    let case = || Case::new("stream", fam.n(), &streams[0]).p("other", crate::ev::hex(&streams[1][..streams[1].len().min(256)])).p("schedule", wl::schedule_text(&scheds[0]));
+    match res {
+        Err(pm) => c.violation(format!("C08:v{}:interleaved:panic:{}", fam.n(), panic_sig(&pm)), format!("decoding two interleaved connections panicked: {}", pm), case()),
+        Ok(_) => {
+            for k in 0..2 {
+                let expect: Vec<Option<Pkt>> = (if k == 0 { a } else { b }).iter().map(|p| Pkt::from_ref(fam, p)).collect();
+                let ok = got[k].len() == expect.len() && got[k].iter().zip(expect.iter()).all(|(g, e)| matches!((g, e), (Ok(p), Some(q)) if p == q));
+                if !ok {
+                    let first_bad = got[k].iter().position(|g| g.is_err()).unwrap_or(got[k].len());
+                    c.violation(
+                        format!("C08:v{}:interleaved:async", fam.n()),
+                        format!(
+                            "connection {} of two served alternately by one thread decoded {} of {} packets; packet {}: {:?}",
+                            k,
+                            got[k].iter().filter(|g| g.is_ok()).count(),
+                            expect.len(),
+                            first_bad,
+                            got[k].get(first_bad).map(|g| g.as_ref().map(crate::mon::valid::short))
+                        ),
+                        case(),
+                    );
+                }
+            }
+        }
+    }
+}
+
+/// Pieces of 1..=9 bytes (and some larger), a Pending before most of them.
+fn stalling_schedule(r: &mut Rng, len: usize) -> Vec<Step> {
+    let mut s = Vec::new();
+    let mut left = len;
+    while left > 0 && s.len() < 4096 {
+        if !r.chance(1, 4) {
+            s.push(Step::Pending);
+        }
+        let k = if r.chance(1, 8) { r.range(1, 300) } else { r.range(1, 9) }.min(left);
+        s.push(Step::Give(k));
+        left -= k;
+    }
+    s
+}
+
 pub fn c08(ctx: &mut Ctx, layer: &str) {
     let nseq: usize = match layer {
         "miri" => if ctx.thorough { 600 } else { 40 },
@@ -766,6 +876,10 @@ pub fn c08(ctx: &mut Ctx, layer: &str) {
                     seq.push(rp);
                 }
                 c08_sequence(c, r, fam, &seq);
+                if i % 4 == 0 && seq.len() >= 2 {
+                    let mid = seq.len() / 2;
+                    c08_interleaved(c, r, fam, &seq[..mid], &seq[mid..]);
+                }
             }
         }
     });
